@@ -191,14 +191,15 @@ def run_case(case):
                 # two runs of the algorithm may differ by a gauge on the bonds (signs of singular vectors), so the
                 # comparison is gauge invariant: multilinear probes of every prefix closed with its cap
                 pa, pb = probe_pt(orig), probe_pt(direct)
-                out.check_close("direct-file/probes", pb, pa, 1e-10 * max(1.0, float(np.abs(pa).max())),
+                ttol = 1000.0 * (len(orig) + 1) * 1e-8 + 1e-7      # two separate truncating runs
+                out.check_close("direct-file/probes", pb, pa, ttol * max(1.0, float(np.abs(pa).max())),
                                 "gauge-invariant probes of the process tensor")
                 if not np.array_equal(np.asarray(direct.get_bond_dimensions()), np.asarray(orig.get_bond_dimensions())):
                     out.fail("direct-file/bond-dimensions", f"{direct.get_bond_dimensions()} vs {orig.get_bond_dimensions()}")
                 for kind in ("dynamics", "correlations"):
                     a = consume(kind, orig, H, rho0, use_dt)
                     b_ = consume(kind, direct, H, rho0, use_dt)
-                    out.check_close("direct-file/" + kind, np.nan_to_num(b_), np.nan_to_num(a), 1e-12)
+                    out.check_close("direct-file/" + kind, np.nan_to_num(b_), np.nan_to_num(a), ttol)
         if case["consumer"] != "none" and not out.fails:
             a = consume(case["consumer"], orig, H, rho0, use_dt)
             b_ = consume(case["consumer"], new, H, rho0, use_dt)
@@ -207,7 +208,8 @@ def run_case(case):
                     if not np.array_equal(np.isnan(a), np.isnan(b_)):
                         out.fail("consumer/" + case["consumer"], "NaN pattern differs")
                     a, b_ = np.nan_to_num(a), np.nan_to_num(b_)
-                out.check_close("consumer/" + case["consumer"], b_, a, 1e-12 * max(1.0, float(np.abs(a).max())))
+                ctol = 1e-8 if case["consumer"] == "tebd" else 1e-12      # PtTebd truncates (epsrel 1e-10): not bit-reproducible
+                out.check_close("consumer/" + case["consumer"], b_, a, ctol * max(1.0, float(np.abs(a).max())))
         return out
     finally:
         for o in opened:
